@@ -73,8 +73,8 @@ CASES = [
 
 CASES += [
     t("exit: local variables renamed", M,
-      "        bb = self.manager.basis_stack.pop()\n        # this is the transformation we got here with\n        SS = self.manager.basis_transformations.pop()\n        # This is the new basis\n        bss = len(self.manager.basis_stack)\n        nb = self.manager.basis_stack[bss-1]\n        \n        # inverse of the transformation matrix\n        S1 = numpy.linalg.inv(SS)     \n        \n        # transform all registered objects\n        operators = self.manager.basis_registered[bb]\n        \n        if nb != 0:\n            # operators registered with the context above this one\n            ops_above = self.manager.basis_registered[nb]\n\n        for op in operators:\n            # the operator might have been set to protected mode\n            # inside the context\n            if not op.is_basis_protected:\n                op.transform(S1,inv=SS) \n            op.set_current_basis(nb)\n            \n            # operators which appeared in this context and where not\n            # register in the one above are now registerd\n            if nb != 0:\n                if op not in ops_above:\n                    self.manager.register_with_basis(nb,op)\n            \n        self.manager.store_current_basis_operator(self._op_backup.pop())\n            \n        del self.manager.basis_registered[bb]",
-      "        left = self.manager.basis_stack.pop()\n        TT = self.manager.basis_transformations.pop()\n        top = self.manager.basis_stack[-1]\n        Tinv = numpy.linalg.inv(TT)     \n        \n        if top != 0:\n            ops_above = self.manager.basis_registered[top]\n\n        for obj in self.manager.basis_registered[left]:\n            if not obj.is_basis_protected:\n                obj.transform(Tinv,inv=TT) \n            obj.set_current_basis(top)\n            if top != 0:\n                if obj not in ops_above:\n                    self.manager.register_with_basis(top,obj)\n            \n        self.manager.store_current_basis_operator(self._op_backup.pop())\n            \n        del self.manager.basis_registered[left]"),
+      "        bb = self.manager.basis_stack.pop()\n        # this is the transformation we got here with\n        SS = self.manager.basis_transformations.pop()\n        # This is the new basis\n        bss = len(self.manager.basis_stack)\n        nb = self.manager.basis_stack[bss-1]\n        \n        # inverse of the transformation matrix\n        S1 = numpy.linalg.inv(SS)     \n        \n        # transform all registered objects\n        operators = self.manager.basis_registered[bb]\n        \n        if nb != 0:\n            # operators registered with the context above this one\n            ops_above = self.manager.basis_registered[nb]\n\n        # an object that cannot be transformed back (e.g. one created inside\n        # the context which holds no data yet) must not leave the other\n        # objects and the bookkeeping in the basis we are leaving; its\n        # exception is raised when everything else is back\n        failed = None\n\n        for op in operators:\n            # the operator might have been set to protected mode\n            # inside the context\n            if not op.is_basis_protected:\n                try:\n                    op.transform(S1,inv=SS) \n                except Exception as exc:\n                    if failed is None:\n                        failed = exc\n            op.set_current_basis(nb)\n            \n            # operators which appeared in this context and where not\n            # register in the one above are now registerd\n            if nb != 0:\n                if op not in ops_above:\n                    self.manager.register_with_basis(nb,op)\n            \n        self.manager.store_current_basis_operator(self._op_backup.pop())\n            \n        del self.manager.basis_registered[bb]",
+      "        left = self.manager.basis_stack.pop()\n        TT = self.manager.basis_transformations.pop()\n        top = self.manager.basis_stack[-1]\n        Tinv = numpy.linalg.inv(TT)     \n        \n        if top != 0:\n            ops_above = self.manager.basis_registered[top]\n\n        failed = None\n        for obj in self.manager.basis_registered[left]:\n            if not obj.is_basis_protected:\n                try:\n                    obj.transform(Tinv,inv=TT) \n                except Exception as exc:\n                    if failed is None:\n                        failed = exc\n            obj.set_current_basis(top)\n            if top != 0:\n                if obj not in ops_above:\n                    self.manager.register_with_basis(top,obj)\n            \n        self.manager.store_current_basis_operator(self._op_backup.pop())\n            \n        del self.manager.basis_registered[left]"),
 ]
 
 OPS = "quantarhei/qm/hilbertspace/operators.py"
@@ -102,4 +102,39 @@ CASES += [
         ("quantarhei/core/managers.py", "        self._op_backup = []\n", "        self._op_backup = []\n        self.manager.store_current_basis_operator(self.op)\n", 1)]},
     {"name": "previous basis operator kept in a differently named stack", "kind": "twin", "edits": [
         ("quantarhei/core/managers.py", "self._op_backup", "self._previous_ops", 3)]},
+]
+
+DMEV = "quantarhei/qm/propagators/dmevolution.py"
+CASES += [
+    m("TD Redfield class body rebinds the managed operators (the repaired defect)", "C04-B6", L + "tdredfieldtensor.py",
+      "    # the operators Km, Lm and Ld are the basis-managed ones of the\n    # time-independent tensor; Lm and Ld carry a leading time index\n",
+      "    Lm = None\n    Ld = None\n    Km = None\n"),
+    m("Lindblad form rebinds the tensor data to a plain class attribute", "C04-B6", L + "lindbladform.py",
+      "class LindbladForm(RedfieldRelaxationTensor):\n", "class LindbladForm(RedfieldRelaxationTensor):\n    Km = []\n"),
+    m("at() hands out a view of the evolution (the repaired defect)", "C04-B7", DMEV,
+      "        return DensityMatrix(data=self.data[ti, :, :].copy())", "        return DensityMatrix(data=self.data[ti, :, :])"),
+    t("at() copies with numpy.array", DMEV,
+      "        return DensityMatrix(data=self.data[ti, :, :].copy())", "        return DensityMatrix(data=numpy.array(self.data[ti, :, :]))"),
+    m("exit leaves at once when a transform raises (the repaired defect)", "C04-B1", M,
+      "                try:\n                    op.transform(S1,inv=SS) \n                except Exception as exc:\n                    if failed is None:\n                        failed = exc\n",
+      "                op.transform(S1,inv=SS) \n"),
+    m("exit swallows the failure of a transform", "C04-B1", M,
+      "        if failed is not None:\n            raise failed\n", ""),
+    m("exit re-raises before the bookkeeping is back", "C04-B1", M,
+      "                except Exception as exc:\n                    if failed is None:\n                        failed = exc\n",
+      "                except Exception as exc:\n                    raise\n"),
+    m("superoperator transform writes into storage of any type (the repaired defect)", "C04-B8", L + "superoperator.py",
+      "        # the values are written back into the storage\n        self._data = self._storage_for_transform(self._data, SS)\n", ""),
+    m("dipole transform writes into storage of any type", "C04-B8", "quantarhei/qm/hilbertspace/dmoment.py",
+      "        self._data = self._storage_for_transform(self._data, SS)\n", ""),
+    m("storage promoted only after the first loop", "C04-B8", L + "relaxationtensor.py",
+      "        # the values are written back into the storage\n        self._data = self._storage_for_transform(self._data, SS)\n        \n        if self._data.ndim == 4:\n            for c in range(dim):",
+      "        if self._data.ndim == 4:\n            self._data = self._storage_for_transform(self._data, SS) if False else self._data\n            for c in range(dim):"),
+    m("promotion helper ignores the transformation matrix", "C04-B8", M,
+      "        rtype = numpy.result_type(data.dtype, SS.dtype, numpy.float64)", "        rtype = numpy.result_type(data.dtype, numpy.float64)"),
+    t("promotion written with astype in place", L + "superoperator.py",
+      "        self._data = self._storage_for_transform(self._data, SS)\n",
+      "        self._data = self._data.astype(numpy.result_type(self._data.dtype, SS.dtype, numpy.float64))\n"),
+    m("deep copy not registered (the repaired defect)", "C04-B3", "quantarhei/core/saveable.py",
+      "                new.manager.register_with_basis(ob, new)\n", "                pass\n"),
 ]
